@@ -222,3 +222,44 @@ func HarnessC14Procs() {
 	}
 	verif.Assert(sameMultiset(rowKeys(tbl, []string{"?s", "?o", "?z"}), want), "C14/procs/same-rows-on-every-schedule")
 }
+
+// C14 (clause order, with keywords): the two-clause patterns of the C03
+// extraction shapes - AS/ID/TYPE/AT aliases on every position, predicate
+// windows, anchor bindings shared between clauses - executed as written and
+// with the clauses exchanged return the same multiset of rows.  No reference
+// evaluation is involved: the two executions are compared with each other.
+func HarnessC14XOrder() {
+	var idx []int
+	for i, sh := range c03XShapes {
+		if len(sh.cs) == 2 && sh.filter == "" && len(sh.global) == 0 && sh.graphs <= 1 {
+			idx = append(idx, i)
+		}
+	}
+	si := verif.Param("SHAPE", -1)
+	if si < 0 {
+		si = idx[verif.Choice("shape", len(idx))]
+	}
+	sh := c03XShapes[si]
+	K := 1 + verif.Choice("k", verif.Param("K", 2))
+	data := make([]*dspec, K)
+	for i := range data {
+		data[i] = symDataX("d", sh.temporal, sh.okinds, nil)
+	}
+	st, _ := newStoreWith("?g", dtriples(data))
+	bs := qnames(xbindingsOf(sh.cs))
+	swapped := []xclause{sh.cs[1], sh.cs[0]}
+	t1, err1 := runBQL(st, xselectText(sh.cs, "?g", noWindow), 0, 10)
+	t2, err2 := runBQL(st, xselectText(swapped, "?g", noWindow), 0, 10)
+	verif.Reach("both-orders")
+	// the planner defects recorded under C03 also make the result depend on the order
+	cl := c03XClass(sh, data)
+	if cl == "" {
+		cl = c03XClass(xshape{cs: swapped}, data)
+	}
+	verif.Class(cl)
+	verif.Assert((err1 == nil) == (err2 == nil), "C14/keyword-clause-order/same-verdict")
+	if err1 != nil || err2 != nil {
+		return
+	}
+	verif.Assert(sameMultiset(rowKeys(t1, bs), rowKeys(t2, bs)), "C14/keyword-clause-order/same-rows")
+}
